@@ -292,14 +292,27 @@ fn check_script(rep: &mut Report, script: &[String], property: Option<&str>, dir
                         for (sig, detail) in consistency(&st2) {
                             rep.fail("oracle", &format!("C11/loaded-store-inconsistent/{}", sig), ctx.clone(), "consistent", &detail);
                         }
-                        // a lookup by id and a text search answer the same
+                        // the text indices of the loaded store answer as the text itself does: both conversions at every
+                        // character boundary, and a search for each of the first characters of the text
                         for r in st2.resources() {
-                            let a: Vec<(usize, usize)> = r.find_text("a").map(|t| (t.begin(), t.end())).collect();
-                            let b: Vec<(usize, usize)> = store.resource(r.handle()).map(|r0| r0.find_text("a").map(|t| (t.begin(), t.end())).collect()).unwrap_or_default();
-                            if a != b {
-                                rep.fail("oracle", "C11/search-differs", ctx.clone(), &format!("{:?}", b), &format!("{:?}", a));
+                            let text = r.text().to_string();
+                            for (ci, (bi, _)) in text.char_indices().chain(std::iter::once((text.len(), ' '))).enumerate() {
+                                let (c2b, b2c) = match guarded(std::panic::AssertUnwindSafe(|| (r.utf8byte(ci).ok(), r.utf8byte_to_charpos(bi).ok()))) { Ok(x) => x, Err(_) => (None, None) };
+                                if c2b != Some(bi) || b2c != Some(ci) {
+                                    rep.fail("oracle", "C11/text-index-differs", ctx.clone(), &format!("char {} <-> byte {}", ci, bi), &format!("utf8byte({}) = {:?}, utf8byte_to_charpos({}) = {:?}", ci, c2b, bi, b2c));
+                                    break;
+                                }
+                            }
+                            let mut seen: Vec<char> = vec![];
+                            for c in text.chars() { if !seen.contains(&c) { seen.push(c); } if seen.len() >= 5 { break; } }
+                            for c in seen {
+                                let needle = c.to_string();
+                                let got = guarded(std::panic::AssertUnwindSafe(|| r.find_text(&needle).map(|t| (t.begin(), t.end())).collect::<Vec<(usize, usize)>>()));
+                                let want: Vec<(usize, usize)> = text.chars().enumerate().filter(|(_, x)| *x == c).map(|(i, _)| (i, i + 1)).collect();
+                                if got.as_ref().ok() != Some(&want) { rep.fail(if got.is_err() { "panic" } else { "oracle" }, "C11/search-differs", ctx.clone(), &format!("{:?}", want), &format!("{:?}", got)); break; }
                             }
                         }
+
                     }
                     Ok(Err(e)) => rep.fail("oracle", "C11/reload-fails", ctx.clone(), "the store loads", &format!("{}", e)),
                     Err(m) => rep.fail("panic", "C11/reload-panics", ctx.clone(), "the store loads", &m),
